@@ -552,3 +552,66 @@ entry("C11", modules=["contracts.c11_tebd"],
                   "step in (0, _dt], error bound accumulates |H| dt^(order+1), queue empty afterwards); at_times (the j-th "
                   "yield is a copy of the state at sorted(ts)[j], one yield per requested time). The gauge obligations "
                   "FAIL on the unchanged tree (consecutive same-direction sweeps; left-sweep renormalisation site).")
+
+
+# -----------------------------------------------------------------------------------------------------------
+# claimed level per property once the deductive part is in place (overrides the level written by the bounded-driver
+# author in props/CNN.py; read by tools_manifest.py and by vf.framework for the evidence file)
+# -----------------------------------------------------------------------------------------------------------
+_T_E1 = ("VCs generated from the real source (python ast -> z3) against sidecar contracts with loop invariants, callee "
+         "contracts and lemmas; run-time contracts on the real functions as the bounded stand-in")
+LEVELS = {
+    "C01": ("proof", "Deductive proof (den domain: log-prefactor arithmetic + uninterpreted contraction) that every return path of "
+            "the 9 contraction entry points of tensor_core.py denotes the value of the network including its stored exponent, "
+            "in every return form, for all networks / exponents / option kinds, relative to the stated leaf contract of "
+            "cotengra; numerical agreement of every route with numpy.einsum is checked by run-time contracts on a bounded "
+            "domain (labelled bounded).", _T_E1),
+    "C03": ("proof", "Frame proof (ast effect analysis, one obligation per method, all discharged) that the plain spelling of "
+            "every method with an `inplace` parameter under quimb/tensor never mutates its receiver, plus alias pairing "
+            "through the MRO; labelled equality, array sharing and axis-order invariance are run-time contracts on a "
+            "bounded receiver x method x argument table (labelled bounded).",
+            "modular effect (frame) analysis over the ast of the real classes + alias pairing by reflection; run-time "
+            "contracts with read-only arrays as the bounded stand-in"),
+    "C08": ("proof", "Deductive proof (ghost isometry arrays per MPS object, quantified invariants) that 14 real MPS methods leave "
+            "a sound record for the object the caller keeps, for all lengths, sites and option kinds, and that canonical-form "
+            "consumers read local tensors only when the record lies inside them, relative to the QR/split leaf contracts; "
+            "threaded histories against the dense state are run-time contracts (labelled bounded).", _T_E1),
+    "C16": ("proof", None, None),
+    "C19": ("proof", "Deductive proof that the 18 ranking kernels of configcore.py are mutually inverse bijections between "
+            "[0, sector size) and the sector with the right combinatorial size (67 lemmas: inductions as base/step pairs), for "
+            "all n <= 62; operator tables decided by finite-domain exhaustive enumeration on the real functions; agreement "
+            "of all representations with an independent Kronecker reference by run-time contracts (labelled bounded).",
+            _T_E1 + "; finite-domain exhaustive obligations (fdx) on the real tables"),
+    "C04": ("other", "Proof core (den domain): strip_exponent, distribute_exponent, equalize_norms and maybe_unwrap preserve the "
+            "denoted value exactly and leave the promised form; every rewrite named in the statement is covered by run-time "
+            "contracts (dense before == after, promised forms) on a bounded domain.", _T_E1),
+    "C05": ("other", "Proof core over the reals: kept rank is the least satisfying the cutoff rule, renormalisation, error and "
+            "absorb forms of the generic and accelerated truncation (shared spec => they agree), option parsers decided "
+            "exhaustively (totality, memo-key soundness, isometry claims); factorizations themselves are run-time "
+            "contracts against numpy on a bounded table.", _T_E1 + "; finite-domain exhaustive obligations (fdx)"),
+    "C07": ("other", "Proved for all real parameters: every registered gate builder is unitary and equals its textbook definition "
+            "(real builders run on sympy symbols, exact algebraic normal form); proved per method: the query-cache "
+            "discipline (validated before access, re-validated after yield, mutation ends invalidated, atomic copy); "
+            "agreement of every simulator and query with a dense reference is a run-time contract on bounded programs.",
+            "symbolic evaluation of the real gate builders with a CAS; ast typestate analysis of the cache discipline; "
+            "run-time contracts as the bounded stand-in"),
+    "C11": ("other", "Proof core: Trotter schedule closed form, term distribution of the LocalHam constructors, sweep bond coverage "
+            "and queue logic, t' == T and step bookkeeping of TEBD for all chain lengths; evolution against explicit product "
+            "formulas / expm is a run-time contract on bounded chains.", _T_E1),
+    "C14": ("other", "Only the mantissa/exponent combiner every flavour uses is proved (polar domain); convergence and "
+            "tree-exactness cannot be expressed by a contract within reach and are decided by run-time contracts on bounded "
+            "trees only.", _T_E1),
+    "C15": ("other", "Proof core (structure-bounded, value-unbounded): digit/ownership/placement arithmetic of dynal, kron, dim_map, "
+            "dim_compress, ikron, partial_transpose and ham_heis for every dimension value with up to 3-5 subsystems; the "
+            "algebra (embedding, permutation, partial trace, sparse formats) is a run-time contract vs explicit numpy.", _T_E1),
+    "C17": ("other", "Proof core: the 11 selection keys are strictly monotone in the documented order and eigs_numpy returns the k best "
+            "pairs with values and vectors re-indexed together; residuals, orthonormality and every other backend are "
+            "run-time contracts on matrices with a prescribed spectrum.", _T_E1),
+    "C18": ("other", "Proof core: the (method x state x Hamiltonian) support table, the time algebra of the update methods "
+            "(state == U(t-t0) p0, two-sided for density operators), callbacks and at_times; the dynamics against "
+            "scipy.linalg.expm are run-time contracts on bounded systems.", _T_E1 + "; finite-domain exhaustive support table"),
+}
+
+
+def level_of(pid):
+    return LEVELS.get(pid)
